@@ -235,7 +235,7 @@ Section Run.
            changed().  Observable effect on storage: Model/Adapter.rebuild; caches end empty. *)
         let x := get s r in
         let s1 := set s r (mkRS (rebuild W (rs_reg x)) (rs_caches x) (rs_bases x) (rs_ro x)
-                                (match rs_flavour x with Push => [] | Verifying => rs_subs x end)
+                                (rs_subs x)      (* __init__ keeps an existing _v_subregistries *)
                                 (rs_vro x) (rs_vgen x) (rs_flavour x)) in
         (after_bump s1 r, [])
     | QLookup r req p n =>
